@@ -359,27 +359,32 @@ PFX = ["p", "q", "r", "s", "t"]
 def attach_case(draw):
     """node 0 = parent, node 1 = child, nodes 2.. = grandchildren (and some great-grandchildren) that hold their own maps;
     the parent gets 2-4 prefixes, then the prepared subtree is attached"""
-    k = draw(st.integers(2, 4))
-    n = 2 + k + draw(st.integers(0, 2))
+    from vf.pre import Pre
+    pre = Pre(draw, 64)     # control choices first (vf/pre.py)
+    k = pre.int(2, 4)
+    n = 2 + k + pre.int(0, 2)
     ops = []
     for g in range(2, n):
-        for _ in range(draw(st.integers(1, 2))):
-            ops.append(("declare", g, draw(st.sampled_from(PFX)), draw(st.sampled_from(["U1", "U2", "U3"]))))
+        for _ in range(pre.int(1, 2)):
+            ops.append(("declare", g, pre.pick(PFX), pre.pick(["U1", "U2", "U3"])))
     for g in range(2, 2 + k):
         ops.append(("attach", 1, g))
     for g in range(2 + k, n):
-        ops.append(("attach", draw(st.integers(2, 1 + k)), g))
-    for _ in range(draw(st.integers(0, 2))):
-        ops.append(("declare", 1, draw(st.sampled_from(PFX)), draw(st.sampled_from(["U1", "U2", "U3"]))))
-    if draw(st.booleans()):
-        ops = draw(st.permutations(ops))
-        ops = [o for o in ops]
-    for pf in draw(st.permutations(PFX))[:draw(st.integers(2, 4))]:
-        ops.append(("declare", 0, pf, draw(st.sampled_from(["U1", "U2", "U3"]))))
+        ops.append(("attach", pre.int(2, 1 + k), g))
+    for _ in range(pre.int(0, 2)):
+        ops.append(("declare", 1, pre.pick(PFX), pre.pick(["U1", "U2", "U3"])))
+    if pre.bool():
+        ops = list(ops)
+        for a_ in range(len(ops) - 1):
+            b_ = pre.int(a_, len(ops) - 1)
+            ops[a_], ops[b_] = ops[b_], ops[a_]
+    start, step = pre.int(0, 4), pre.pick([1, 2, 3, 4])
+    for pf in [PFX[(start + j * step) % 5] for j in range(pre.int(2, 4))]:      # 2-4 distinct prefixes
+        ops.append(("declare", 0, pf, pre.pick(["U1", "U2", "U3"])))
     ops.append(("attach", 0, 1))
-    if draw(st.booleans()):
-        ops.append(("declare", draw(st.integers(0, n - 1)), draw(st.sampled_from(PFX)), "U4"))
-        ops.append(("remove", draw(st.integers(0, n - 1)), draw(st.sampled_from(PFX))))
+    if pre.bool():
+        ops.append(("declare", pre.int(0, n - 1), pre.pick(PFX), "U4"))
+        ops.append(("remove", pre.int(0, n - 1), pre.pick(PFX)))
     return n, ops
 
 
